@@ -239,12 +239,16 @@ pub fn replay(_ctx: &mut Ctx, ext: &str, bytes: &[u8]) -> Result<Option<String>,
         let text = gen_text_for(&mut Tape::new(bytes));
         return check_encodings(text.trim_start_matches('\u{feff}')).map(|_| None).map_err(|m| Fail::new(m, "osu", text.into_bytes()));
     }
-    // plain bytes: compare with the independent lossy conversion, then all encodings of that text
+    check_plain(bytes).map(|_| None).map_err(|m| Fail::new(m, "osu", bytes.to_vec()))
+}
+
+/// plain bytes: compare with the independent lossy conversion, then all encodings of that text
+pub fn check_plain(bytes: &[u8]) -> Result<(), String> {
     let text = crate::refmodel::framing::decode_bytes(bytes);
-    let got = dec_bytes(bytes).map_err(|m| Fail::new(m, "osu", bytes.to_vec()))?;
-    let want = dec_str(&text).map_err(|m| Fail::new(m, "osu", bytes.to_vec()))?;
+    let got = dec_bytes(bytes)?;
+    let want = dec_str(&text)?;
     if let Some(d) = full_diff(&want, &got) {
-        return Err(Fail::new(format!("bytes decode differently from their lossy text: {d}"), "osu", bytes.to_vec()));
+        return Err(format!("bytes decode differently from their lossy text: {d}"));
     }
-    check_encodings(text.trim_start_matches('\u{feff}')).map(|_| None).map_err(|m| Fail::new(m, "osu", bytes.to_vec()))
+    check_encodings(text.trim_start_matches('\u{feff}'))
 }
